@@ -175,6 +175,10 @@ macro_rules! replay_table {
     };
 }
 
+pub(crate) use chk;
+pub(crate) use harness;
+pub(crate) use replay_table;
+
 /// Vacuity canary: a deliberately false obligation. Every run requires Kani to REJECT it; if it is
 /// ever reported successful the tool chain proves nothing and the check refuses to answer.
 pub mod canary {
@@ -209,6 +213,9 @@ pub fn replay(path: &str, vals: Vec<Vec<u8>>) -> Result<Vec<&'static str>, Strin
         "exts" => exts::replay(rest, &mut s),
         "tables" => tables::replay(rest, &mut s),
         "kmers" => kmers::replay(rest, &mut s),
+        "vmer" => crate::vmer::verif::replay(rest, &mut s),
+        "filter" => crate::filter::verif::replay(rest, &mut s),
+        "bitops_avx2" => crate::bitops_avx2::verif::replay(rest, &mut s),
         _ => false,
     };
     if !found {
